@@ -82,6 +82,9 @@ def is_slicing(s):
 def t1(s):
     k = s.kind
     x = s.extra
+    r0 = ledger.t1_common(s)
+    if r0:
+        return r0
     if k == "divzero":
         d = x.get("divisor")
         if d is not None and is_const(d) and d[1] not in (0, False):
